@@ -46,3 +46,57 @@ Proof. exact data_write_confined. Qed.
 Print Assumptions C08_data_writes.
 (* C08_io (not proved as one theorem): every EvW of every history lies in the volume; follows from C08_addr + C08_alloc +
    the region accessors of Model/FS.v; on the implementation it is checked by the guarded device. *)
+
+(** ** C08 over histories (writes): every device write of ANY history of interface calls lies inside the volume.
+    [pre]: sane geometry (regions in order, as [parse_header] computes them), the FAT serialises into its region, and the
+    entries of the sector-rounded FAT behind the last cluster are free — as every formatter leaves them.  Then whatever
+    start cluster a directory entry or a stale handle names, the follower never yields a cluster the volume does not have
+    (such an entry holds neither a link nor an end mark), the allocator never hands one out, and the FAT / root-directory
+    writes stay in their regions.  [C08_io_session] adds the dirty marking of the mount and the clean marking of close.
+    Reads are not logged by the model: for them the guarded device of the harness is the only judge. *)
+From Coq Require Import Relations Lia FMapPositive.
+From PyFatV Require Import Proofs.Session Proofs.HdrState Proofs.Identity Proofs.FatBound Proofs.BootSafe Proofs.Inside.
+Theorem C08_io_history : forall s s', pre s -> clos_refl_trans st wstep s s' ->
+  exists l, s_log s' = l ++ s_log s /\ Forall (fun w => 512 <= fst w /\ fst w + lenZ (snd w) <= total_sectors s * bps s) l.
+Proof. exact history_writes_inside. Qed.
+Print Assumptions C08_io_history.
+Theorem C08_io_session : forall s s1 s2 s3, pre s -> hdr_wf (s_h s) ->
+  (ft s = Gen.FAT_TYPE_FAT32 -> 0 <= BPB_BkBootSec (s_h s) * bps s /\ BPB_BkBootSec (s_h s) * bps s + 512 <= vol_end s) ->
+  mark_dirty s = Ok s1 -> clos_refl_trans st wstep s1 s2 -> mark_clean s2 = Ok s3 ->
+  exists l, s_log s3 = l ++ s_log s /\ Forall (fun w => 0 <= fst w /\ fst w + lenZ (snd w) <= total_sectors s * bps s) l.
+Proof. exact session_writes_within. Qed.
+Print Assumptions C08_io_session.
+(** the invariant is re-established by every operation, so it holds in every reachable state *)
+Theorem C08_pre_invariant : forall s s', pre s -> clos_refl_trans st wstep s s' -> pre s'.
+Proof. intros s s' Hp H. exact (pre_J s s' Hp (history_J s s' Hp H)). Qed.
+Print Assumptions C08_pre_invariant.
+
+(** non-vacuity: a FAT16 volume of 4300 sectors whose FAT (17 sectors, 4352 entries) is longer than its data area
+    (4261 clusters, last cluster 4262): [pre] holds after the dirty marking, a makedir and a file creation with truncation
+    are steps from there, the log grows, and all of it is inside *)
+Definition ex08_hdr : hdr := mkHdr [235;60;144] (repeat 77 8) 512 1 1 2 64 4300 248 17 0 0 0 0 0 0 0 0 0 0 [] 128 0 41 7 (repeat 32 11) (repeat 70 8) false.
+Definition ex08_init : st :=
+  mkSt ex08_hdr (set_bytes_per_cluster (Gen.parse_header_geometry pf_init ex08_hdr) 512) false false ([65528; 65535; 65535] ++ repeat 0 4349) [] 0
+       (PositiveMap.empty _) (4300 * 512) [] [].
+Definition ex08_s1 : st := match mark_dirty ex08_init with Ok s => s | Err _ => ex08_init end.
+Definition ex08_nD : namerec := mkName [68] (Some [68]) (Some [68]) [68] [] true.
+Definition ex08_nF : namerec := mkName [70] (Some [70]) (Some [70]) [70] [] true.
+Definition ex08_a : st := match op_makedir ex08_s1 [ex08_nD] false (2020, 1, 1, 0, 0, 0) with Ok s => s | Err _ => ex08_s1 end.
+Definition ex08_b : st := match op_openbin ex08_a [ex08_nD; ex08_nF] (mkMode false true false true false true) (2020, 1, 1, 0, 0, 0) with Ok (s, _) => s | Err _ => ex08_a end.
+Example C08_io_example :
+  pre ex08_init /\ max_cluster ex08_init = 4262 /\ lenZ (s_fat ex08_init) = 4352 /\ ft ex08_init = 16 /\
+  mark_dirty ex08_init = Ok ex08_s1 /\ clos_refl_trans st wstep ex08_s1 ex08_b /\ (length (s_log ex08_b) > length (s_log ex08_s1))%nat.
+Proof.
+  split.
+  { unfold pre. split; [right; left; vm_compute; reflexivity|]. split.
+    - unfold geo. repeat (split; [vm_compute; first [reflexivity|discriminate]|]). vm_compute. discriminate.
+    - split; [apply tf_of_forallb; [vm_compute; discriminate|vm_compute; reflexivity]|vm_compute; discriminate]. }
+  split; [vm_compute; reflexivity|]. split; [vm_compute; reflexivity|]. split; [vm_compute; reflexivity|].
+  split; [vm_compute; reflexivity|]. split.
+  - apply rt_trans with ex08_a; apply rt_step.
+    + apply (ws_makedir ex08_s1 [ex08_nD] false (2020, 1, 1, 0, 0, 0) ex08_a). vm_compute. reflexivity.
+    + assert (E : exists h, op_openbin ex08_a [ex08_nD; ex08_nF] (mkMode false true false true false true) (2020, 1, 1, 0, 0, 0) = Ok (ex08_b, h)).
+      { unfold ex08_b. destruct (op_openbin ex08_a _ _ _) as [[s h]|] eqn:E; [exists h; reflexivity|vm_compute in E; discriminate]. }
+      destruct E as (h & E). exact (ws_openbin _ _ _ _ _ _ E).
+  - vm_compute. repeat constructor.
+Qed.
